@@ -14,7 +14,7 @@ import z3
 
 __all__ = ["Ctx", "ctx", "SBool", "SNum", "SCplx", "Undecided", "StopPath", "PathRaise", "explore", "Q", "forall",
            "implies", "land", "lor", "lnot", "ite", "sreal", "sint", "sbool", "lift", "is_sym", "fresh_real",
-           "fresh_int", "fresh_bool", "to_z3", "conc", "spec_mode", "in_spec", "ssqrt"]
+           "fresh_int", "fresh_bool", "to_z3", "conc", "spec_mode", "in_spec", "ssqrt", "ite_pc"]
 
 
 class Undecided(Exception):
@@ -42,6 +42,12 @@ class Q:
         with spec_mode():
             return to_bool_term(self.body(*vals))
 
+    def native(self, tag):
+        """z3 ForAll term (only meaningful when arrays are in "uf" mode: cells are constants, not functions)"""
+        vs = [SNum(z3.Int("qv!%s!%d" % (tag, k)), "int") if srt == "int" else SNum(z3.Real("qv!%s!%d" % (tag, k)), "real")
+              for k, srt in enumerate(self.sorts)]
+        return z3.ForAll([v.t for v in vs], self.inst(*vs))
+
 
 class Ctx:
     """one path: decisions taken, path condition, obligations generated so far."""
@@ -62,6 +68,7 @@ class Ctx:
         self.store_indices = []     # symbolic indices of array stores on this path (for the j==s / j!=s split)
         self.split_on_stores = True
         self.entry_marks = []       # len(pc) at entry of the extracted function(s) currently executing
+        self.array_mode = ARRAY_MODE[0]   # "cells" (constants + Ackermann, for non-linear real goals) | "uf"
         self.ghost = {}
 
     # ---- naming
@@ -116,7 +123,7 @@ class Ctx:
                 self.obligations.append(dict(name=nm, kind=kind, pc=[], goal=gg, trivial=True, meta=meta or {}))
             else:
                 self.obligations.append(dict(name=nm, kind=kind, pc=list(self.pc) + hy, goal=gg, trivial=False,
-                                             meta=meta or {}, cells=dict(self.cells)))
+                                             meta=meta or {}, cells=dict(self.cells), array_mode=self.array_mode))
         if then_assume:
             self.assume(qgoal if qgoal is not None else g)
 
@@ -144,6 +151,21 @@ class Ctx:
         r = self._solver.check()
         self._solver.pop()
         return r != z3.unsat
+
+    def entails(self, c):
+        """True if the linear part of the path condition entails c, False if it entails not c, else None"""
+        t = z3.simplify(to_bool_term(c))
+        if z3.is_true(t):
+            return True
+        if z3.is_false(t):
+            return False
+        if not self.check_feasible or not is_linear(t):
+            return None
+        if not self._feasible(z3.Not(t)):
+            return True
+        if not self._feasible(t):
+            return False
+        return None
 
     def branch(self, t):
         """t: z3 Bool.  Returns the python bool decided for this path."""
@@ -215,6 +237,7 @@ def is_linear(t):
 
 _CUR = [None]
 _SPEC = [0]
+ARRAY_MODE = ["cells"]
 
 
 class spec_mode:
@@ -777,6 +800,18 @@ def implies(a, b):
         inner = b
         return Q(lambda *v: implies(a, inner.body(*v)), inner.sorts, inner.name)
     return SBool(z3.Implies(to_bool_term(a), to_bool_term(b)))
+
+
+def ite_pc(c, a, b):
+    """ite that is resolved right away when the path condition already decides c (keeps index terms simple)"""
+    cv = conc(c) if not isinstance(c, bool) else c
+    if cv is None and _CUR[0] is not None and not in_spec():
+        cv = _CUR[0].entails(c)
+    if cv is True:
+        return a
+    if cv is False:
+        return b
+    return ite(c, a, b)
 
 
 def ite(c, a, b):
